@@ -10,7 +10,7 @@ import pyref.dstu as RD
 import pyref.pfok as RP
 from errs import E, name as ename
 
-RULE = ("cases: bign96 (1 set) x d {1, 2, q-1, rnd} x H {0, 1, q-1, q, q+1, 2^192-1, rnd} x OIDs x tapes (0, q, [q,p), 2^192-1 rejected; 65 rejections => ERR_BAD_RNG) x Sign/Sign2(t); "
+RULE = ("cases: bign96 (1 set) x d {1, 2, q-1, rnd, crafted so that S1 is small and S1 + q fits} x H {0, 1, q-1, q, q+1, 2^192-1, rnd} x OIDs x tapes (0, q, [q,p), 2^192-1 rejected; 65 rejections => ERR_BAD_RNG) x Sign/Sign2(t); "
         "g12s (8 sets) x d {1, q-1, rnd, crafted so that the first k gives s = 0} x hash {0, 1, q, 2q|q-1, 2^l-1, [q,2^l), rnd} x tapes (0, q, >= q, bits above |q| set; 65 rejections); "
         "dstu (10 curves, base point from dstuPointGen on a tape, appendix point for 163) x d {1, 2^(L(n)-1)-1, n-1, rnd} x hashes (empty, short, exact, long, 0 -> 1, only bits >= m) x e {1, max, rnd} with zero draws x "
         "ld = 16*order_no + 16*{0,1,2,3,7,40}; compress/recover on points with tr(x) = A, tr(x) != A, x = 0, xpoint in {0, 1, 2, random, >= 2^m}; "
@@ -72,8 +72,19 @@ def run_bign96(ctx, c):
         raise Fail("bign96ParamsStd failed %s" % ename(r))
     oid = RB.oid_to_der(c["oid"])
     OID = x.buf(oid)
+    hv = {"zero": 0, "one": 1, "qm1": q - 1, "q": q, "qp1": q + 1, "max": (1 << 192) - 1}.get(c["h"])
+    if hv is None:
+        hv = rnd_int(c, "h", n)
+    H = hv.to_bytes(n, "little")
+    k = {"one": 1, "qm1": q - 1}.get(c["kc"]) or rnd_int(c, "k", n) % (q - 1) + 1
     # key generation from a tape
-    d = {"one": 1, "two": 2, "qm1": q - 1}.get(c["d"]) or rnd_int(c, "d", n) % (q - 1) + 1
+    d = {"one": 1, "two": 2, "qm1": q - 1}.get(c["d"])
+    if c["d"] == "s1small":
+        # S0 does not depend on d: choose d so that S1 = (k - H - (S0 + 2^103) d) mod q is a small number t; then S1 + q fits into 24 octets
+        S0 = int.from_bytes(RB.sign96(oid, H, 1, k, top_bit=TOP)[:10], "little")
+        d = (k - hv - rnd_int(c, "t", 12)) * pow(S0 + (1 << TOP), -1, q) % q
+    if not d:
+        d = rnd_int(c, "d", n) % (q - 1) + 1
     tape = b96_tape(c, "rej", q, p, d)
     dk, Qk = x.out(24), x.out(48)
     r = x.call("bign96KeypairGen", dk, Qk, P, GEN, x.tape(tape, mode=2))
@@ -101,11 +112,6 @@ def run_bign96(ctx, c):
         ctx.nontrivial("b96_keygen_rej", tuple(c["rej"])[:3], c["d"])
     Qb = mQb
     # sign
-    hv = {"zero": 0, "one": 1, "qm1": q - 1, "q": q, "qp1": q + 1, "max": (1 << 192) - 1}.get(c["h"])
-    if hv is None:
-        hv = rnd_int(c, "h", n)
-    H = hv.to_bytes(n, "little")
-    k = {"one": 1, "qm1": q - 1}.get(c["kc"]) or rnd_int(c, "k", n) % (q - 1) + 1
     stape = b96_tape(c, "rejk", q, p, k)
     sig = x.out(34)
     r = x.call("bign96Sign", sig, P, OID, len(oid), x.buf(H), dk, GEN, x.tape(stape, mode=2))
@@ -129,11 +135,11 @@ def run_bign96(ctx, c):
     r = x.call("bign96Verify", P, OID, len(oid), x.buf(H), sig2, Qk)
     if r:
         raise Fail("bign96Verify rejects a bign96Sign2 signature: %s (h=%s d=%x)" % (ename(r), H.hex(), md))
-    if c["h"] in ("zero", "q", "qp1", "max", "qm1") or c["d"] in ("one", "qm1") or c["rejk"] or c["kc"] != "rnd":
+    if c["h"] in ("zero", "q", "qp1", "max", "qm1") or c["d"] in ("one", "qm1", "s1small") or c["rejk"] or c["kc"] != "rnd":
         ctx.nontrivial("b96_sign", c["h"], c["d"], c["kc"], tuple(c["rejk"])[:2])
     # alterations, judged by the reference verifier
     alt = c["alt"]
-    base = msig2 if c["bit"] & 1 and alt != "none" else msig
+    base = msig2 if c["bit"] & 1 and alt not in ("none", "s1pq") else msig
     fs, fH, fQ, foid = base, H, Qb, oid
     s1 = int.from_bytes(base[10:], "little")
     if alt == "sigbit": fs = flip(base, c["bit"] >> 1)
@@ -182,12 +188,12 @@ REJ96 = st.lists(st.sampled_from(["zero", "q", "qp", "max", "qp1"]), max_size=3)
 SEED = st.binary(min_size=1, max_size=4).map(bytes.hex)
 S_BIGN96 = st.fixed_dictionaries({
     "seed": SEED, "oid": st.sampled_from(OIDS),
-    "d": st.sampled_from(["rnd", "rnd", "one", "two", "qm1"]), "h": st.sampled_from(["rnd", "rnd", "zero", "one", "qm1", "q", "qp1", "max"]),
+    "d": st.sampled_from(["rnd", "rnd", "one", "two", "qm1", "s1small", "s1small"]), "h": st.sampled_from(["rnd", "rnd", "zero", "one", "qm1", "q", "qp1", "max"]),
     "kc": st.sampled_from(["rnd", "rnd", "one", "qm1"]),
-    "rej": st.one_of(REJ96, REJ96, REJ96, st.sampled_from([["q"] * 64, ["max"] * 65, ["zero"] * 64, ["zero"] * 65])), "rejk": REJ96,
+    "rej": st.one_of(*[REJ96] * 11, st.sampled_from([["q"] * 64, ["max"] * 65, ["zero"] * 64, ["zero"] * 65])), "rejk": REJ96,
     "t": st.sampled_from([None, 0, 1, 24, 32, 100]),
-    "alt": st.sampled_from(["none", "sigbit", "sigbit", "s1pq", "s1q", "s1max", "s1zero", "s0inc", "hbit", "hbit", "hpq", "oid", "oidbit", "qneg", "qother", "qbit", "qbit",
-                            "qxp", "qzero"]),
+    "alt": st.sampled_from(["sigbit", "sigbit", "s1pq", "s1pq", "s1q", "s1max", "s1zero", "s0inc", "hbit", "hbit", "hpq", "oid", "oidbit", "qneg", "qother", "qbit", "qbit",
+                            "qxp", "qzero", "none"]),
     "bit": st.integers(0, 2000)})
 
 
@@ -345,9 +351,9 @@ S_G12S = st.fixed_dictionaries({
     "set": st.sampled_from([0, 1, 2, 3, 4, 0, 1, 2, 3, 4, 5, 6, 7]), "seed": SEED,
     "d": st.sampled_from(["rnd", "rnd", "one", "qm1", "s0"]), "h": st.sampled_from(["rnd", "rnd", "zero", "one", "q", "2q", "ones", "geq"]),
     "kc": st.sampled_from(["rnd", "rnd", "one", "qm1"]), "hig": st.booleans(),
-    "rej": st.one_of(REJG, REJG, REJG, REJG, st.sampled_from([["zero"] * 64, ["max"] * 65, ["zero"] * 65])), "rejk": REJG,
-    "alt": st.sampled_from(["none", "sigbit", "sigbit", "sigbit", "r0", "s0", "rq", "sq", "rpq", "spq", "rneg", "sneg", "hbit", "hbit", "hpq", "h01",
-                            "qneg", "qother", "qbit", "qbit", "qxp", "qzero"]),
+    "rej": st.one_of(*[REJG] * 11, st.sampled_from([["zero"] * 64, ["max"] * 65, ["zero"] * 65])), "rejk": REJG,
+    "alt": st.sampled_from(["sigbit", "sigbit", "sigbit", "r0", "s0", "rq", "sq", "rpq", "rpq", "spq", "spq", "rneg", "sneg", "hbit", "hbit", "hpq", "h01",
+                            "qneg", "qother", "qbit", "qbit", "qxp", "qzero", "none"]),
     "bit": st.integers(0, 4000)})
 
 
@@ -522,10 +528,10 @@ def run_dstu(ctx, c):
     elif alt == "qbit": fQ = flip(Qb, c["bit"]); key_known_valid = False
     elif alt == "qt2":
         T2 = (0, RD.f_sqrt(M, M.B))
-        fQ = RD.point_enc(M, RD.ec_add(M, RD.point_dec(M, Qb), T2)); key_known_valid = False      # on the curve, order 2n
+        fQ = RD.point_enc(M, RD.ec_add(M, RD.point_dec(M, Qb), T2)); key_known_valid = None       # on the curve, order 2n: 10.1 rejects it
     changed = (fld, fs, fH, fQ) != (ld, msig, H, Qb)
     r = x.call("dstuVerify", prm, fld, x.buf(fH), len(fH), x.buf(fs), x.buf(fQ))
-    judged = key_known_valid or RD.point_val(M, fQ)
+    judged = key_known_valid or (key_known_valid is not None and RD.point_val(M, fQ))
     if judged:
         # the key is valid (10.1): the verdict is that of sections 12/13
         mv = RD.verify(M, fld, fH, fs, fQ, check_pubkey=False)
@@ -542,14 +548,14 @@ def run_dstu(ctx, c):
 
 
 REJD = st.lists(st.sampled_from(["zero", "top"]), max_size=2)
-CURVES = [0, 0, 0, 0, 0, 0, 1, 1, 1, 2, 2, 2, 3, 3, 3, 4, 4, 4, 5, 5, 6, 6, 7, 8, 9]
+CURVES = [0, 0, 0, 0, 0, 0, 1, 1, 1, 2, 2, 2, 3, 3, 3, 4, 4, 4, 5, 5, 6, 6, 7, 7, 8, 8, 9]
 S_DSTU = st.fixed_dictionaries({
     "curve": st.sampled_from(CURVES), "bp": st.sampled_from([0, 0, 0, 1]), "seed": SEED,
     "d": st.sampled_from(["rnd", "rnd", "one", "hi", "nm1"]), "ec": st.sampled_from(["rnd", "rnd", "one", "hi"]), "hig": st.booleans(),
     "h": st.sampled_from(["rnd32", "rnd32", "empty", "zero32", "ones64", "one", "topbit", "short", "exact", "long"]),
     "rej": REJD, "rejk": REJD, "lds": st.lists(st.sampled_from([1, 2, 3, 7, 40]), max_size=2, unique=True), "ldi": st.integers(0, 2),
-    "alt": st.sampled_from(["none", "sigbit", "sigbit", "sigbit", "padbit", "r0", "s0", "rn", "sn", "rpn", "spn", "sneg", "hbit", "hbit", "hsame", "h01", "ldother",
-                            "qneg", "qother", "qbit", "qt2"]),
+    "alt": st.sampled_from(["sigbit", "sigbit", "sigbit", "padbit", "r0", "s0", "rn", "sn", "rpn", "spn", "sneg", "hbit", "hbit", "hsame", "h01", "ldother",
+                            "qneg", "qother", "qbit", "qt2", "none"]),
     "bit": st.integers(0, 4000)})
 
 
@@ -716,7 +722,7 @@ def tests(tier):
     return [
         Test("bign96", S_BIGN96, run_bign96, {"quick": 400, "thorough": 8000}, CFG),
         Test("g12s", S_G12S, run_g12s, {"quick": 400, "thorough": 8000}, CFG),
-        Test("dstu", S_DSTU, run_dstu, {"quick": 320, "thorough": 4000}, CFG, shards=16),
-        Test("dstu_point", S_DSTU_POINT, run_dstu_point, {"quick": 400, "thorough": 6000}, CFG),
+        Test("dstu", S_DSTU, run_dstu, {"quick": 288, "thorough": 4000}, CFG, shards=16),
+        Test("dstu_point", S_DSTU_POINT, run_dstu_point, {"quick": 350, "thorough": 6000}, CFG),
         Test("pfok", S_PFOK, run_pfok, {"quick": 300, "thorough": 6000}, CFG),
     ]
